@@ -169,4 +169,11 @@ theorem C01_source_skeletons :
     Gen.Skel.DB_ApplyLTXNoLock = Expected.Skel.DB_ApplyLTXNoLock :=
   rfl
 
+/-- further regenerated control skeletons (fifth round of seeded changes: code no earlier change had
+    touched): Client_Stream, PosNode_Read -/
+theorem C01_source_skeletons_5 :
+    Gen.Skel.Client_Stream = Expected.Skel.Client_Stream ∧
+    Gen.Skel.PosNode_Read = Expected.Skel.PosNode_Read :=
+  ⟨rfl, rfl⟩
+
 end LiteFSVerif.C01
